@@ -27,7 +27,7 @@ const prop = "C04"
 
 func TestMain(m *testing.M) {
 	vkit.Rec(prop).SetLevel("exploration",
-		"the full product {operator-authorized, activation-token, wrapper, re-wrapped} x {in-memory, file, store-once} x storage wrapper {off,on} x node-side storage wrapper {off,on} x root configuration {default, both roots valid at once} x node storage back end {in-memory, file} is enumerated once (exhaustive), then rapid draws random application state / application-specific params and node-side substitutions (other key, altered server key, echoed nonce empty / truncated / extended / bit-flipped / another node's, fields swapped with another node's response). The response, every certificate and the stored record are PARSED and compared field by field, and the stored credentials complete a real handshake with a listener on the same server; substituted responses must be refused and leave node storage unchanged. Non-trivial = at least one wrapper, a non-in-memory back end or a substitution; distinct = configuration tuple (+ substitution).")
+		"the full product {operator-authorized, activation-token, wrapper, re-wrapped} x {in-memory, file, store-once} x storage wrapper {off,on} x node-side storage wrapper {off,on} x root configuration {default, both roots valid at once, rotation overdue: current expired and next valid} x node storage back end {in-memory, file} is enumerated once (exhaustive), then rapid draws random application state / application-specific params and node-side substitutions (other key, altered server key, echoed nonce empty / truncated / extended / bit-flipped / another node's, fields swapped with another node's response). The response, every certificate and the stored record are PARSED and compared field by field, and the stored credentials complete a real handshake with a listener on the same server; substituted responses must be refused and leave node storage unchanged. Non-trivial = at least one wrapper, a non-in-memory back end or a substitution; distinct = configuration tuple (+ substitution).")
 	vkit.Main(m)
 }
 
@@ -432,7 +432,7 @@ func TestEnum_Product(t *testing.T) {
 			}
 		}
 	}
-	vkit.Rec(prop).Exhaustive("flow x back end x server storage wrapper x node storage wrapper x root configuration x node storage back end (336 tuples)", true)
+	vkit.Rec(prop).Exhaustive("flow x back end x server storage wrapper x node storage wrapper x root configuration x node storage back end (504 tuples)", true)
 }
 
 func TestProp_Random(t *testing.T) {
